@@ -355,6 +355,7 @@ impl Word {
         if CARDINALS_TRIE.contains_prefix(buffer.as_str()) {
             *i += 1;
             while *i < txt.len() {
+                #[cfg(feature = "verif")] crate::verif::tick(18);
                 let mut tmp = buffer.clone(); tmp.push(self.to_ipa(txt[*i]));
                 if CARDINALS_TRIE.contains_prefix(tmp.as_str()) {
                     buffer.push(self.to_ipa(txt[*i]));
@@ -463,6 +464,7 @@ impl Word {
         let mut sy = Syllable::new();
 
         while i < txt.len() {
+            #[cfg(feature = "verif")] crate::verif::tick(19);
 
             // Primary or Secondary Stress
             if txt[i] == 'ˌ' || txt[i] == 'ˈ' {
@@ -490,6 +492,7 @@ impl Word {
                 if txt[i].is_ascii_digit() {
                     let mut tone_buffer = String::new();
                     while i < txt.len() && txt[i].is_ascii_digit() {
+                        #[cfg(feature = "verif")] crate::verif::tick(20);
                         tone_buffer.push(txt[i]);
                         i+=1;
                     }
@@ -734,6 +737,7 @@ impl Word {
 
             let mut j = 0;
             'outer: while j < syll.segments.len() {
+                #[cfg(feature = "verif")] crate::verif::tick(21);
                 if j != 0 && syll.segments[j] == syll.segments[j-1] {
                     // TODO: Need to skip if we matched length last time
                     buffer.push('ː');
